@@ -278,13 +278,31 @@ func (e *env) fixture() error {
 	}
 	// (with product-type = "logkeeper" a line-protocol write to a time-series database
 	// crashes the server in IndexBuilder.GetPrimaryIndex, so that flavour gets log records only)
+	seeded := func(db string) bool {
+		res, err := e.adminQ(db, "SELECT count(v) FROM "+mst1)
+		return err == nil && len(res.Results) > 0 && len(res.Results[0].Series) > 0 && len(res.Results[0].Series[0].Values) > 0 &&
+			fmt.Sprint(res.Results[0].Series[0].Values[0][1]) == "6"
+	}
 	for _, db := range []string{db1, db2, sacDB} {
 		if e.fl.LogKeeper {
 			break
 		}
+		if seeded(db) {
+			continue
+		}
 		w := e.s.Write(db, lines, e.admin)
 		if !w.Acked() {
 			return fmt.Errorf("seed write to %s: %d %s %v", db, w.Status, w.Body, w.Err)
+		}
+		// visibility rule: wait until the seed series are established
+		seen := false
+		for i := 0; i < 100 && !seen; i++ {
+			if seen = seeded(db); !seen {
+				time.Sleep(100 * time.Millisecond)
+			}
+		}
+		if !seen {
+			e.c.Inconclusive("fixture-data-not-visible:"+e.tag()+":"+db, 1)
 		}
 	}
 	if e.fl.LogKeeper {
@@ -312,27 +330,11 @@ func (e *env) fixture() error {
 			}
 		}
 	}
-	// visibility rule: wait until the seed series are established
-	for _, db := range []string{db1, db2, sacDB} {
-		if e.fl.LogKeeper {
-			break
-		}
-		seen := false
-		for i := 0; i < 100 && !seen; i++ {
-			res, err := e.adminQ(db, "SELECT count(v) FROM "+mst1)
-			if err == nil && len(res.Results) > 0 && len(res.Results[0].Series) > 0 && len(res.Results[0].Series[0].Values) > 0 {
-				if fmt.Sprint(res.Results[0].Series[0].Values[0][1]) == "6" {
-					seen = true
-					break
-				}
-			}
-			time.Sleep(100 * time.Millisecond)
-		}
-		if !seen {
-			e.c.Inconclusive("fixture-data-not-visible:"+e.tag()+":"+db, 1)
-		}
+	if !e.fl.LogKeeper {
+		// empty mem-tables make the engine's view part of the fingerprint (any accepted write shows);
+		// not for the log-store flavour: a flush after a log stream was deleted panics the server
+		_ = e.s.Flush()
 	}
-	_ = e.s.Flush()
 	return nil
 }
 
